@@ -228,6 +228,7 @@ CHECKS["C18"] = {
         J("expressions", "c18", "TestExpressions", 3000, 80000, 8),
         J("validatevar", "c18", "TestValidateVar", 3000, 80000, 8),
         J("validatestruct", "c18", "TestValidateStruct", 1000, 20000, 4),
+        J("validatemulti", "c18", "TestValidateMulti", 1500, 30000, 4),
     ],
     "assumptions": [
         "github.com/expr-lang/expr and go-playground/validator are trusted third parties (the reference evaluates the substituted text with the former; the constraint reimplementation is self-checked against the latter on every case)",
